@@ -8,12 +8,14 @@ Copies `$VERIF_REPO/jmespath/src` (default /repo) to a scratch directory, applie
   * semantic mutations must make the build fail, or the translator exit non-zero (broken tie).
 `Generated/Code.lean` is regenerated from the unmodified source at the end and the scratch copy removed.
 The edits of `fn interpret` (second target, `Generated/InterpCode.lean`, checked by `JmesVerif.Lemmas.InterpEquiv`) are in
-`interp_edits.py`.
-Usage: rs2lean_selftest.py [all|harmless|semantic|limits|interp|interp-harmless|interp-semantic]"""
+`interp_edits.py`; those of the third target (`Generated/ValidCode.lean`: is_valid, Display, validate, float_eq, eq, cmp; checked by
+`JmesVerif.Lemmas.ValidEquiv`) in `valid_edits.py`.
+Usage: rs2lean_selftest.py [all|harmless|semantic|limits|interp|interp-harmless|interp-semantic|valid|valid-harmless|valid-semantic|valid-limits]"""
 import os, shutil, subprocess, sys, tempfile, time
 HERE = os.path.dirname(os.path.abspath(__file__))
 sys.path.insert(0, HERE)
 from interp_edits import INTERP_HARMLESS, INTERP_SEMANTIC
+from valid_edits import VALID_HARMLESS, VALID_SEMANTIC, VALID_LIMITS
 SNAP = os.path.join(os.environ.get("VERIF_REPO", "/repo"), "jmespath", "src")
 MUT = os.path.join(tempfile.gettempdir(), "rs2lean_selftest_src_%d" % os.getpid())
 LEAN = os.path.join(os.path.dirname(HERE), "lean")
@@ -136,7 +138,7 @@ def restore():
     env = dict(os.environ)
     env.pop("VERIF_SRC", None)
     subprocess.run([sys.executable, os.path.join(HERE, "rs2lean.py")], env=env, check=True)
-    b = subprocess.run(["lake", "build", "JmesVerif.Lemmas.CodeEquiv", "JmesVerif.Lemmas.InterpEquiv"], cwd=LEAN, capture_output=True, text=True)
+    b = subprocess.run(["lake", "build", "JmesVerif.Lemmas.CodeEquiv", "JmesVerif.Lemmas.InterpEquiv", "JmesVerif.Lemmas.ValidEquiv"], cwd=LEAN, capture_output=True, text=True)
     print("restored; build", "OK" if b.returncode == 0 else "FAILS")
 
 if __name__ == "__main__":
@@ -162,5 +164,17 @@ if __name__ == "__main__":
             print("== interpret: semantic mutations (expected: build FAILS or translator exits non-zero)")
             for k, v in INTERP_SEMANTIC.items():
                 print(f"  {k}: {run(k, v, 'JmesVerif.Lemmas.InterpEquiv', 'InterpCode.lean')}", flush=True)
+        if which in ("all", "valid", "valid-harmless"):
+            print("== validation / equality: harmless rewrites (expected: ValidCode.lean changes in shape only; build OK)")
+            for k, v in VALID_HARMLESS.items():
+                print(f"  {k}: {run(k, v, 'JmesVerif.Lemmas.ValidEquiv', 'ValidCode.lean')}", flush=True)
+        if which in ("all", "valid", "valid-semantic"):
+            print("== validation / equality: semantic mutations (expected: build FAILS or translator exits non-zero)")
+            for k, v in VALID_SEMANTIC.items():
+                print(f"  {k}: {run(k, v, 'JmesVerif.Lemmas.ValidEquiv', 'ValidCode.lean')}", flush=True)
+        if which in ("all", "valid", "valid-limits"):
+            print("== validation / equality: equivalent rewrites the generic proofs may not absorb (a false alarm needing proof maintenance)")
+            for k, v in VALID_LIMITS.items():
+                print(f"  {k}: {run(k, v, 'JmesVerif.Lemmas.ValidEquiv', 'ValidCode.lean')}", flush=True)
     finally:
         restore()
